@@ -24,14 +24,14 @@ TOUCHED="$(grep '^+++ b/' "$SRC/patch.diff" | sed 's#+++ b/##' | xargs -n1 dirna
 echo "demo without change rc=$r0 (want 0); build rc=$rb (want 0); demo with change rc=$r1 (want !=0); existing tests rc=$rt (want 0)"
 RES=""
 for id in "$@"; do
-  VERIF_EVIDENCE_DIR=/tmp/seedrun-evidence VERIF_REPO="$W" /verif/check "$id" quick > "$OUT/check_$id.log" 2>&1; rc=$?
+  VERIF_EVIDENCE_DIR=/tmp/seedrun-evidence VERIF_REPLAY_DIR=/tmp/seedrun-replays VERIF_REPO="$W" /verif/check "$id" quick > "$OUT/check_$id.log" 2>&1; rc=$?
   keys="$(grep -o 'violation key=[^ ]*' "$OUT/check_$id.log" | sed 's/violation key=//' | paste -sd',')"
   echo "check $id rc=$rc keys=$keys"
   RES="$RES{\"check\":\"$id\",\"exit\":$rc,\"keys\":\"$keys\"},"
 done
-find /verif/replays -type f -newer "$OUT/apply.log" -delete 2>/dev/null
 cat > "$OUT/run.json" <<EOT
 {"demo_without_change_rc": $r0, "build_rc": $rb, "demo_with_change_rc": $r1, "existing_tests_with_change_rc": $rt, "checks": [${RES%,}],
  "how": "scratch copy of /repo (rsync) + patch -p1; checks run with VERIF_REPO=<copy> ./check <id> quick (equivalent to git -C /repo apply; /repo itself is never modified while other work reads it)"}
 EOT
-rm -rf "$W" /verif/harness/bin/*-alt-* /verif/harness/.alt-* 2>/dev/null
+h="$(echo "$W" | md5sum | cut -c1-8)"
+rm -rf "$W" /verif/harness/bin/*-alt-$h /verif/harness/.alt-$h.* 2>/dev/null
